@@ -120,12 +120,13 @@ Proof.
 Qed.
 
 Lemma varstr_roundtrip b rest :
-  zlen b < 18446744073709551616 ->
+  zlen b < 9223372036854775808 ->
   exists e, encode_varstr b = Ok e /\ read_varstr (e ++ rest) = Ok (b, rest).
 Proof.
   intros H. unfold encode_varstr, read_varstr.
   destruct (varint_roundtrip (zlen b) (b ++ rest)) as [l [Hl Hr]];
     [pose proof (zlen_nonneg b); lia|].
   rewrite Hl. cbn [bind]. eexists. split; [reflexivity|].
-  rewrite <- app_assoc, Hr. cbn [bind]. now rewrite readz_app.
+  rewrite <- app_assoc, Hr. cbn [bind].
+  destruct (9223372036854775808 <=? zlen b) eqn:E; [lia|]. now rewrite readz_app.
 Qed.
